@@ -185,7 +185,7 @@ impl Validator {
                         let linked = if hidden.is_empty() {
                             tld.link_constraint_reference(&self.tlds)
                         } else {
-                            let mut scope = self.tlds.clone();
+                            let mut scope = linking::with_resolved_value_chains(&self.tlds);
                             scope.retain(|k, _| !hidden.contains(&k));
                             tld.link_constraint_reference(&scope)
                         };
